@@ -15,7 +15,8 @@ SPEC = dict(
          'Oracle per mutated string: the library rejects it, or returns exactly the (time, imprint) of the reference decoding of the string with all characters outside '
          'A-Z 2-7 - = removed (lowercase letters: removed or read as uppercase). The reference decoder rejects CRC mismatch, unknown algorithm, byte length != 13 + digest length '
          'and a whole surplus symbol. Distinct = distinct case name; non-trivial = at least one library result was compared with the reference. '
-         'Further: special times 2^31, 2^39, 2^63-1, 0x123456789abcdef0; KSI_PublicationRecord_toBase32; after every refused string two hashes created on the context must be distinct and correct.',
+         'Further: special times 2^31, 2^39, 2^63-1, 0x123456789abcdef0; KSI_PublicationRecord_toBase32; after every refused string two hashes created on the context must be distinct and correct. '
+         'Surplus symbols followed by 1..6 pad characters; the valid string followed by 1..8 pad characters.',
     bounds=dict(
         quick='e: times {0,1,2^31-1,2^32-1,2^32,2^63,2^64-1} and 2..255 x algorithm ids {0,1,2,4,5,7,8,9,10,11} x digests {all 00, all ff, counter} (7830 strings). '
               'b: encode lengths 0..40 x 13 group lengths {0..9,13,40,100} x 4 patterns; decode of all reference encodings (lengths 0..40, groups 0..9, padded/unpadded, upper/lower case) '
